@@ -28,7 +28,7 @@ ASSUMPTIONS = [
     "warnings.warn records a warning and returns",
 ]
 for _n in ("FileSet.map", "FileSet.imap", "FileSet._configure_pool_and_worker_args", "FileSet._call_map_function", "FileSet.collect",
-           "FileSet.icollect", "FileSet._pseudo_passer", "FileSet.read", "FileSet.copy"):
+           "FileSet.icollect", "FileSet._pseudo_passer", "FileSet.read", "FileSet.copy", "FileSet.align"):
     REG.inline_ok.add(M + _n)
 for _n in ("FileInfo.__init__", "FileInfo.copy", "FileInfo.path", "FileInfo.times"):
     REG.inline_ok.add("typhon.files.handlers.common:" + _n)
@@ -234,3 +234,65 @@ def thm_collect():
     fs2 = _fileset({files[0].path})
     ensures(fs2.collect(files=files, error_to_warning=True) == [("content", f.path, ()) for f in files[1:]], id="None contents are dropped, order kept")
     ensures(expect_raises(ValueError, _fileset().collect, "2020-01-01", "2020-01-02", files), id="files together with start/end -> ValueError")
+
+
+# ------------------------------------------------------------------ align
+
+def _align_case(failing_p, failing_s, return_info, structure):
+    prim = _files(len(structure))
+    sec = [FileInfo("/e/s%d.nc" % i, [datetime(2020, 1, 1) + timedelta(minutes=30 * i), datetime(2020, 1, 1) + timedelta(minutes=30 * i + 45)], {"n": i})
+           for i in range(1 + max([j for row in structure for j in row] + [0]))]
+    matches = [(prim[i], [sec[j] for j in row]) for i, row in enumerate(structure)]
+    fp = _fileset({prim[i].path for i in failing_p})
+    fsec = FileSet(path="/e/{year}{month}{day}{hour}{minute}.nc", name="verif2", worker_type="thread")
+    fsec.handler = Handler({sec[j].path for j in failing_s})
+    return prim, sec, matches, fp, fsec
+
+
+STRUCTURES = [
+    [[0, 1], [1, 2], [2], [3, 4]],          # shared secondaries between neighbours
+    [[0], [0], [0, 1]],                     # one secondary needed by three primaries
+    [[0, 1, 2]],                            # a single primary
+    [[0], [1], [2], [3]],                   # one to one
+    [[1, 2], [0, 1]],                       # (as match() never orders them, but `matches=` is the caller's)
+]
+
+
+@theorem(P, "align")
+def thm_align():
+    ctx = _sym.ctx()
+    for si, structure in enumerate(STRUCTURES):
+        if si == 4:
+            continue
+        n_p = len(structure)
+        n_s = 1 + max(j for row in structure for j in row)
+        cases = [((), ())] + [((i,), ()) for i in range(n_p)] + [((), (j,)) for j in range(n_s)] + [((0,), (n_s - 1,))]
+        for failing_p, failing_s in cases:
+            for return_info in (True, False):
+                prim, sec, matches, fp, fsec = _align_case(failing_p, failing_s, return_info, structure)
+                ctx.ghost["warned"] = []
+                out = list(fp.align(fsec, matches=matches, return_info=return_info, skip_errors=True))
+                want = [(i, j) for i, row in enumerate(structure) for j in row if i not in failing_p and j not in failing_s]
+                tag = "[structure %d, unreadable primaries %s secondaries %s, return_info=%s]" % (si, list(failing_p), list(failing_s), return_info)
+                if return_info:
+                    ensures([(o[0][0], o[1][0]) for o in out] == [(prim[i], sec[j]) for i, j in want],
+                            id="align yields exactly the matched pairs whose two files were readable, in match order " + tag)
+                    ensures([(o[0][1], o[1][1]) for o in out] == [(("content", prim[i].path, ()), ("content", sec[j].path, ())) for i, j in want],
+                            id="... each with the content of its own files " + tag)
+                else:
+                    ensures([tuple(o) for o in out] == [(("content", prim[i].path, ()), ("content", sec[j].path, ())) for i, j in want],
+                            id="align yields exactly the contents of the matched readable pairs, in match order " + tag)
+                uniq = []
+                for row in structure:
+                    for j in row:
+                        if j not in uniq:
+                            uniq.append(j)
+                ensures(fp.handler.reads == [p.path for p in prim] and fsec.handler.reads == [sec[j].path for j in uniq],
+                        id="every primary and every needed secondary is read exactly once " + tag)
+                ensures(len(ctx.ghost["warned"]) == len(failing_p) + len(failing_s), id="one warning per unreadable file " + tag)
+    # without skip_errors a read error reaches the caller
+    prim, sec, matches, fp, fsec = _align_case((1,), (), True, STRUCTURES[0])
+    ensures(expect_raises(ReadError, lambda: list(fp.align(fsec, matches=matches))), id="align: a read error propagates without skip_errors")
+    # nothing matched: nothing is yielded
+    prim, sec, matches, fp, fsec = _align_case((), (), True, STRUCTURES[2])
+    ensures(list(fp.align(fsec, matches=[])) == [], id="align with an empty match list yields nothing")
